@@ -76,3 +76,14 @@ Definition gcase_attrib (cfg : deviations) (c : gcase) : list nat :=
 Definition gcase_explain (cfg : deviations) (c : gcase) :=
   (gcase_model cfg c, gcase_spec c, gc_runs c, gc_extra c,
    map (fun o => (o_mono o, o_wall o)) (gc_occs c), gc_seen c).
+
+(* ---------- several functions in one scenario (same trigger entity, shared guard entities) ---------- *)
+(* every function is judged on its own occurrence list: its guard sees the values at its own occurrence *)
+Definition mcase : Type := list gcase.
+Definition mcase_model_ok (cfg : deviations) (m : mcase) : bool := forallb (gcase_model_ok cfg) m.
+Definition mcase_spec_ok (m : mcase) : bool := forallb gcase_spec_ok m.
+Definition mcase_attrib (cfg : deviations) (m : mcase) : list nat :=
+  let bad := filter (fun c => negb (gcase_spec_ok c)) m in
+  if existsb (fun c => match gcase_attrib cfg c with [] => true | _ => false end) bad then []
+  else nodup Nat.eq_dec (concat (map (gcase_attrib cfg) bad)).
+Definition mcase_explain (cfg : deviations) (m : mcase) := map (gcase_explain cfg) m.
